@@ -874,7 +874,7 @@ def split_variants(tpls, prefix="split_"):
 def _with_splits(fn):
     def wrapped(tier):
         base = fn(tier) + cross(tier).get(fn.__name__, [])
-        return base + split_variants(base) + nested(tier).get(fn.__name__, [])
+        return base + split_variants(base) + nested(tier).get(fn.__name__, []) + nested2(tier).get(fn.__name__, [])
     wrapped.__name__ = fn.__name__
     wrapped.__doc__ = fn.__doc__
     return wrapped
@@ -1069,4 +1069,50 @@ def nested(tier):
             rows_ = max(rows, 3 if iname in ("agg", "analytic") else rows)
             d = T("n_%s_of_%s" % (oname, iname), ob(ib), rows_)
             out.setdefault(prop, []).append(d)
+    return out
+
+
+# ------------------------------------------------------------------------------------------ nesting product over a two-measure shape
+def nested2(tier):
+    """outer x inner over datasets with two measures of different types (Me_1 Integer, Me_2 Number): measure pairing, order and
+    per-measure typing through sub-queries"""
+    gt0 = binop(">", "Me_1", 0)
+    inner = [
+        ("dsds", lambda: binop("+", "DS_1", "DS_2")),
+        ("dssc", lambda: binop("*", "DS_1", 2)),
+        ("unary", lambda: unop("abs", "DS_1")),
+        ("agg", lambda: agg("sum", "DS_1", "group by", ["Id_1", "Id_2"])),
+        ("union", lambda: setop("union", ["DS_1", "DS_2"])),
+        ("setdiff", lambda: setop("setdiff", ["DS_1", "DS_2"])),
+        ("filter", lambda: filter_("DS_1", gt0)),
+        ("calc", lambda: calc("DS_1", [(None, "Me_2", binop("+", "Me_2", "Me_1"))])),
+        ("rename_swap", lambda: rename("DS_1", [("Me_1", "Me_7")])),
+        ("nvl", lambda: binop("nvl", "DS_1", 0)),
+        ("round", lambda: paramop("round", ["DS_1"], [1])),
+    ]
+    outer = [
+        ("c01", "plus_ds", lambda e: binop("+", e(), "DS_2"), 2, True),
+        ("c01", "ds_minus", lambda e: binop("-", "DS_2", e()), 2, True),
+        ("c01", "times_sc", lambda e: binop("*", e(), 3), 2, False),
+        ("c01", "neg", lambda e: unop("-", e()), 2, False),
+        ("c02", "filter2", lambda e: filter_(e(), binop(">", "Me_2", 0)), 2, True),
+        ("c02", "calc_both", lambda e: calc(e(), [(None, "Me_9", binop("+", "Me_2", 1))]), 2, True),
+        ("c02", "keep2", lambda e: keep(e(), ["Me_2"]), 2, True),
+        ("c02", "drop1", lambda e: drop(e(), ["Me_2"]), 2, True),
+        ("c03", "sum_by", lambda e: agg("sum", e(), "group by", ["Id_1"]), 3, False),
+        ("c03", "avg_by", lambda e: agg("avg", e(), "group by", ["Id_2"]), 3, False),
+        ("c04", "join", lambda e: join("inner_join", [(e(), "a"), ("DS_J", "b")]), 2, False),
+        ("c05", "union", lambda e: setop("union", [e(), "DS_2"]), 2, True),
+        ("c05", "intersect", lambda e: setop("intersect", [e(), "DS_2"]), 2, True),
+        ("c06", "an_sum", lambda e: analytic("sum", e(), partition_by=["Id_1"]), 3, False),
+    ]
+    out = {}
+    for prop, oname, ob, rows, needs_me2 in outer:
+        for iname, ib in inner:
+            if iname == "rename_swap" and needs_me2 and oname in ("plus_ds", "ds_minus", "union", "intersect"):
+                continue        # Me_1 renamed: the other operand no longer has the same measures
+            if (oname, iname) in (("plus_ds", "setdiff"), ("ds_minus", "setdiff"), ("intersect", "setdiff"), ("filter2", "round")):
+                # (filter over round: the row set would depend on the uninterpreted ROUND, which the self-check cannot evaluate)
+                continue
+            out.setdefault(prop, []).append(T("m2_%s_of_%s" % (oname, iname), ob(ib), rows))
     return out
